@@ -1,3 +1,134 @@
-(* placeholder: replaced below *)
-From PV Require Import Model.Prelude.
-Example C05_placeholder : 1 = 1. Proof. reflexivity. Qed.
+(* Property C05: impersonate_tcp output is fingerprinted as the requested signature.
+   The full statement (every satisfiable signature, every admissible base) is FALSE of the code: see the
+   C05_refuted_* examples, one per known-finding class, each a concrete satisfiable signature + admissible base +
+   tape on which the faithful model's output does not pass the oracle.  What holds, and is proved for every random
+   tape, is the statement restricted to the decidable class Supported (and quirk-coherent) signatures. *)
+From Coq Require Import String.
+From PV Require Import Model.Prelude Model.Bits Model.Sig Model.Matcher Model.Select Model.Options Model.Wire Model.Text Model.SigParse Model.Imperson
+  Spec.C01 Spec.C05 Proofs.ImpSoundP Proofs.Refuted.
+
+(* C05_supported_sound: the packet built by the impersonator, written to the wire as Scapy does and dissected as pyp0f
+   does, is matched by the requested signature EXACTLY at TTL distance extra_hops -- for every supported, coherent
+   signature, every admissible base packet, every extra_hops below the signature TTL and within max distance, every tape. *)
+Theorem C05_supported_sound : forall md s b hops mtu t x t',
+  wf_sig s -> supported_b s = true -> coherent_b s b = true -> admissible_base b ->
+  0 <= hops < s_ttl s -> hops <= md ->
+  imp_tcp s b hops mtu None t = Ok (x, t') ->
+  oracle md s x = Ok (Some Exact, hops).
+Proof. exact supported_sound. Qed.
+Print Assumptions C05_supported_sound.
+
+(* ... and it does not raise: the only failure of the model is a random tape that is too short or out of range *)
+Theorem C05_supported_no_raise : forall s b hops mtu t,
+  wf_sig s -> supported_b s = true -> coherent_b s b = true -> admissible_base b ->
+  0 <= hops < s_ttl s ->
+  (exists x t', imp_tcp s b hops mtu None t = Ok (x, t')) \/ imp_tcp s b hops mtu None t = Err OutOfFuel.
+Proof. exact supported_no_raise. Qed.
+Print Assumptions C05_supported_no_raise.
+
+(* KF-olen: signature with IP option length != 0: the output has no IP options, so olen differs and nothing matches *)
+Example C05_refuted_olen :
+  exists s k, parse_tcp_sig refuted_olen_sig = Ok s /\
+    parse_packet 4 refuted_olen_witness = Framed (Ok k) /\ tcp_match 35 s (sig_of k 0) = Some Exact /\
+    t_type (k_tcp k) = Z.land (b_flags refuted_olen_base) 18 /\ admissible_base refuted_olen_base /\
+    match imp_tcp s refuted_olen_base 0 1500 None refuted_olen_tape with
+    | Ok (x, _) => oracle 35 s x <> Ok (Some Exact, 0)
+    | Err e => e <> OutOfFuel
+    end.
+Proof. exact refuted_olen. Qed.
+
+(* KF-unknown-kind: layout with a ?n option kind: the option is silently dropped, the layout differs *)
+Example C05_refuted_unknown_kind :
+  exists s k, parse_tcp_sig refuted_unknown_kind_sig = Ok s /\
+    parse_packet 4 refuted_unknown_kind_witness = Framed (Ok k) /\ tcp_match 35 s (sig_of k 0) = Some Exact /\
+    t_type (k_tcp k) = Z.land (b_flags refuted_unknown_kind_base) 18 /\ admissible_base refuted_unknown_kind_base /\
+    match imp_tcp s refuted_unknown_kind_base 0 1500 None refuted_unknown_kind_tape with
+    | Ok (x, _) => oracle 35 s x <> Ok (Some Exact, 0)
+    | Err e => e <> OutOfFuel
+    end.
+Proof. exact refuted_unknown_kind. Qed.
+
+(* KF-eol-pad: eol+n with n other than the zero padding Scapy adds up to a multiple of 4: the EOL padding length differs *)
+Example C05_refuted_eol_pad :
+  exists s k, parse_tcp_sig refuted_eol_pad_sig = Ok s /\
+    parse_packet 4 refuted_eol_pad_witness = Framed (Ok k) /\ tcp_match 35 s (sig_of k 0) = Some Exact /\
+    t_type (k_tcp k) = Z.land (b_flags refuted_eol_pad_base) 18 /\ admissible_base refuted_eol_pad_base /\
+    match imp_tcp s refuted_eol_pad_base 0 1500 None refuted_eol_pad_tape with
+    | Ok (x, _) => oracle 35 s x <> Ok (Some Exact, 0)
+    | Err e => e <> OutOfFuel
+    end.
+Proof. exact refuted_eol_pad. Qed.
+
+(* KF-opt+: opt+ (non-zero bytes after EOL) is never produced *)
+Example C05_refuted_optplus :
+  exists s k, parse_tcp_sig refuted_optplus_sig = Ok s /\
+    parse_packet 4 refuted_optplus_witness = Framed (Ok k) /\ tcp_match 35 s (sig_of k 0) = Some Exact /\
+    t_type (k_tcp k) = Z.land (b_flags refuted_optplus_base) 18 /\ admissible_base refuted_optplus_base /\
+    match imp_tcp s refuted_optplus_base 0 1500 None refuted_optplus_tape with
+    | Ok (x, _) => oracle 35 s x <> Ok (Some Exact, 0)
+    | Err e => e <> OutOfFuel
+    end.
+Proof. exact refuted_optplus. Qed.
+
+(* KF-bad: 'bad' (malformed option) is never produced *)
+Example C05_refuted_bad :
+  exists s k, parse_tcp_sig refuted_bad_sig = Ok s /\
+    parse_packet 4 refuted_bad_witness = Framed (Ok k) /\ tcp_match 35 s (sig_of k 0) = Some Exact /\
+    t_type (k_tcp k) = Z.land (b_flags refuted_bad_base) 18 /\ admissible_base refuted_bad_base /\
+    match imp_tcp s refuted_bad_base 0 1500 None refuted_bad_tape with
+    | Ok (x, _) => oracle 35 s x <> Ok (Some Exact, 0)
+    | Err e => e <> OutOfFuel
+    end.
+Proof. exact refuted_bad. Qed.
+
+(* KF-sack: SACK length is drawn without regard to the 40-byte option area: with other options present the header can overflow / the packet is not well framed *)
+Example C05_refuted_sack :
+  exists s k, parse_tcp_sig refuted_sack_sig = Ok s /\
+    parse_packet 4 refuted_sack_witness = Framed (Ok k) /\ tcp_match 35 s (sig_of k 0) = Some Exact /\
+    t_type (k_tcp k) = Z.land (b_flags refuted_sack_base) 18 /\ admissible_base refuted_sack_base /\
+    match imp_tcp s refuted_sack_base 0 1500 None refuted_sack_tape with
+    | Ok (x, _) => oracle 35 s x <> Ok (Some Exact, 0)
+    | Err e => e <> OutOfFuel
+    end.
+Proof. exact refuted_sack. Qed.
+
+(* KF-repeated-option: a value option occurring twice (e.g. ws,ws with exws from the first and the scale from the last): every copy gets the same value *)
+Example C05_refuted_repeated_option :
+  exists s k, parse_tcp_sig refuted_repeated_option_sig = Ok s /\
+    parse_packet 4 refuted_repeated_option_witness = Framed (Ok k) /\ tcp_match 35 s (sig_of k 0) = Some Exact /\
+    t_type (k_tcp k) = Z.land (b_flags refuted_repeated_option_base) 18 /\ admissible_base refuted_repeated_option_base /\
+    match imp_tcp s refuted_repeated_option_base 0 1500 None refuted_repeated_option_tape with
+    | Ok (x, _) => oracle 35 s x <> Ok (Some Exact, 0)
+    | Err e => e <> OutOfFuel
+    end.
+Proof. exact refuted_repeated_option. Qed.
+
+(* KF-window-search: mss*N with an MSS for which MSS*N does not fit 16 bits or a free MSS that must avoid earlier divisors, and mtu*N: a satisfying window/MSS pair exists but must be searched; the code writes MSS*N or mtu*N blindly *)
+Example C05_refuted_window_search :
+  exists s k, parse_tcp_sig refuted_window_search_sig = Ok s /\
+    parse_packet 4 refuted_window_search_witness = Framed (Ok k) /\ tcp_match 35 s (sig_of k 0) = Some Exact /\
+    t_type (k_tcp k) = Z.land (b_flags refuted_window_search_base) 18 /\ admissible_base refuted_window_search_base /\
+    match imp_tcp s refuted_window_search_base 0 1500 None refuted_window_search_tape with
+    | Ok (x, _) => oracle 35 s x <> Ok (Some Exact, 0)
+    | Err e => e <> OutOfFuel
+    end.
+Proof. exact refuted_window_search. Qed.
+
+(* non-vacuity of the Supported class: a signature from the shipped database *)
+Local Open Scope string_scope.
+Local Open Scope Z_scope.
+Local Open Scope list_scope.
+Example C05_supported_example :
+  match parse_tcp_sig (str "*:64:0:*:mss*20,7:mss,sok,ts,nop,ws:df,id+:0") with
+  | Ok s => supported_b s = true /\   (* wf_sig s follows from C10_ranges_tcp *)
+      let b := {| b_ver := 4; b_src := [10; 0; 0; 1]; b_dst := [10; 0; 0; 2]; b_id := 0; b_ipflags := 0; b_frag := 0; b_proto := 6; b_sport := 1234;
+                  b_dport := 80; b_seq := 0; b_ack := 0; b_flags := 194; b_urg := 0; b_win := 512; b_mss := Some 1400; b_ws := None;
+                  b_ts1 := None; b_ts2 := Some 7; b_payload := [65] |} in
+      coherent_b s b = true /\
+      match imp_tcp s b 3 1500 None [4242; 99; 123456] with
+      | Ok (x, _) => oracle 35 s x = Ok (Some Exact, 3)
+      | Err _ => False
+      end
+  | Err _ => False
+  end.
+Proof. vm_compute. repeat split; reflexivity. Qed.
